@@ -981,6 +981,18 @@ class Data(object):
         return ("{0}({1})".format(self.__class__.__name__,
                                   repr(self.__dict__.items())))
 
+    def __delattr__(self, key):
+        """Convert delattr of a field to delitem on self.__dict__
+
+           object.__delattr__ deletes from the dict storage directly and so
+           bypasses odict.__delitem__ which leaves the deleted key in the
+           odict's ordered key list
+        """
+        if key in self.__dict__:
+            del self.__dict__[key]
+        else:
+            super(Data,self).__delattr__(key)
+
     def _change(self, *pa, **kwa):
         """
         Change attributes
